@@ -12,8 +12,19 @@ EXPLANATION = (
 )
 
 
+def _analyze_box(cr):
+    from bounded import pipeline
+    from bounded.contract_enum import run_contract_enum
+    from contracts import c20b
+    pipeline.ensure_repo()
+    args = c20b.analyze_arg_sets()
+    cr.bounded_check(run_contract_enum, "analyze-alias-box", c20b.analyze_contract, args,
+                     f"{len(args)} cases: a three-node program with four names x every subset of names the program reads: consumers, "
+                     "output aliases and output marks (contract evaluated on the real method)")
+
+
 def run(tier):
     progs = gen.c20_scope(tier)
     return run_e2e_property("C20", tier, EXPLANATION, "DESIGN §4 C20",
                             [("e2e-named-results", progs, "named results of every producer kind, aliases, consumed names")],
-                            contract_modules=["contracts.c20", "contracts.c20b"])
+                            contract_modules=["contracts.c20", "contracts.c20b"], extra=_analyze_box)
